@@ -104,12 +104,15 @@ package evaluator
 //@   modifies contents(env.store)
 
 //@ func (e *Evaluator) evalProgram
+//@   return 1: assert error-passed-through-unchanged: result == stmtObj
 //@   requires prog != nil && WFNode(iface(prog)) && env != nil
 //@   use wfProgram(prog)
 //@   ensures result != nil
 //@   modifies contents(env.store)
 
 //@ func (e *Evaluator) evalIfStmt
+//@   return 0: assert error-passed-through-unchanged: result == condition
+//@   return 2: assert error-passed-through-unchanged: result == condition
 //@   call Eval#1: bind thenResult
 //@   call Eval#4: bind elseResult
 //@   goal then-result-is-passed-through: !isErr(result) && truthy(condition) && len(node.Alternatives) == 0 ==> result == thenResult
@@ -127,6 +130,7 @@ package evaluator
 //@   modifies contents(env.store)
 
 //@ func (e *Evaluator) evalBlockStmt
+//@   return 1: assert error-passed-through-unchanged: result == obj
 //@   goal control-ends-the-block: istype(result, *object.Block) ==> forall(j, 0, len(as(result, *object.Block).Elements)-1,
 //@        !hasCtl(as(result, *object.Block).Elements[j], object.BREAK_OBJ) && !hasCtl(as(result, *object.Block).Elements[j], object.CONTINUE_OBJ))
 //@   call Eval#0: assert in-order-same-scope: arg1 == block.Statements[rangeindex] && arg2 == env && len(elems) == rangeindex
@@ -137,6 +141,7 @@ package evaluator
 //@   modifies contents(env.store)
 
 //@ func (e *Evaluator) evalAssignStmt
+//@   return 0: assert error-passed-through-unchanged: result == val
 //@   call newError#*: assert error-carries-the-construct: arg1 == iface(node)
 //@   call Set#0: bind setErr
 //@   call Set#0: assert assigns-in-current-scope: arg0 == env && arg1 == node.Name.Value
@@ -147,6 +152,7 @@ package evaluator
 //@   modifies contents(env.store)
 
 //@ func (e *Evaluator) evalUseStmt
+//@   return 2: assert error-passed-through-unchanged: result == layoutContent
 //@   call Eval#0: assert layout-with-the-data-of-the-call: arg1 == iface(node.Program) && arg2 == env
 //@   goal use-without-program-is-error: node.Program == nil ==> isErr(result)
 //@   call newError#*: assert error-carries-the-construct: arg1 == iface(node)
@@ -156,6 +162,8 @@ package evaluator
 //@   modifies contents(env.store)
 
 //@ func (e *Evaluator) evalReserveStmt
+//@   return 1: assert error-passed-through-unchanged: result == result__0
+//@   return 4: assert error-passed-through-unchanged: result == firstArg
 //@   call Eval#0: assert block-insert-with-the-data-of-the-call: arg1 == iface(node.Insert.Block) && arg2 == env
 //@   call Eval#1: assert expression-insert-with-the-data-of-the-call: arg1 == node.Insert.Argument && arg2 == env
 //@   goal no-insert-renders-nothing: node.Insert == nil ==> result == iface(NIL)
@@ -167,6 +175,9 @@ package evaluator
 //@   modifies contents(env.store)
 
 //@ func (e *Evaluator) evalComponentStmt
+//@   return 0: assert error-passed-through-unchanged: result == name
+//@   return 2: assert error-passed-through-unchanged: result == val
+//@   return 4: assert error-passed-through-unchanged: result == content
 //@   call newError#*: assert error-carries-the-construct: arg1 == iface(node)
 //@   call NewEnclosedEnv#0: assert component-scope-encloses-the-caller: arg0 == env
 //@   call Eval#1: assert argument-evaluated-at-place-of-use: arg2 == env
@@ -182,6 +193,11 @@ package evaluator
 //@   modifies contents(env.store)
 
 //@ func (e *Evaluator) evalForStmt
+//@   return 0: assert error-passed-through-unchanged: result == init
+//@   return 1: assert error-passed-through-unchanged: result == cond__0
+//@   return 4: assert error-passed-through-unchanged: result == cond__1
+//@   return 5: assert error-passed-through-unchanged: result == block
+//@   return 6: assert error-passed-through-unchanged: result == post
 //@   call Eval#2: bind elseResult
 //@   goal else-result-is-passed-through: node.Condition != nil && !isErr(cond__0) && !truthy(cond__0) && node.Alternative != nil && !isErr(init) ==> result == elseResult
 //@   call newError#*: assert error-carries-the-construct: arg1 == iface(node)
@@ -200,6 +216,8 @@ package evaluator
 //@   modifies contents(env.store)
 
 //@ func (e *Evaluator) evalEachStmt
+//@   return 0: assert error-passed-through-unchanged: result == arrObj
+//@   return 5: assert error-passed-through-unchanged: result == block
 //@   call Eval#1: bind elseResult
 //@   goal else-result-is-passed-through: !isErr(arrObj) && istype(arrObj, *object.Array) && elemsLen == 0 && node.Alternative != nil ==> result == elseResult
 //@   call newError#*: assert error-carries-the-construct: arg1 == iface(node)
@@ -233,6 +251,7 @@ package evaluator
 //@   modifies contents(env.store)
 
 //@ func (e *Evaluator) evalSlotStmt
+//@   return 1: assert error-passed-through-unchanged: result == body
 //@   call Eval#0: assert slot-body-in-the-component-scope: arg1 == iface(node.Body) && arg2 == env
 //@   requires node != nil && WFNode(iface(node)) && env != nil
 //@   use wfSlotStmt(node)
@@ -253,6 +272,8 @@ package evaluator
 //@   modifies contents(env.store)
 
 //@ func (e *Evaluator) evalIndexExp
+//@   return 0: assert error-passed-through-unchanged: result == left
+//@   return 1: assert error-passed-through-unchanged: result == idx
 //@   call newError#*: assert error-carries-the-construct: arg1 == iface(node)
 //@   requires node != nil && WFNode(iface(node)) && env != nil
 //@   use wfIndexExp(node)
@@ -260,6 +281,7 @@ package evaluator
 //@   modifies contents(env.store)
 
 //@ func (e *Evaluator) evalDotExp
+//@   return 0: assert error-passed-through-unchanged: result == left
 //@   call newError#*: assert error-carries-the-construct: arg1 == iface(node)
 //@   requires node != nil && WFNode(iface(node)) && env != nil
 //@   use wfDotExp(node)
@@ -275,6 +297,7 @@ package evaluator
 //@   modifies nothing
 
 //@ func (e *Evaluator) evalPrefixExp
+//@   return 0: assert error-passed-through-unchanged: result == right
 //@   call newError#*: assert error-carries-the-construct: arg1 == iface(node)
 //@   requires node != nil && WFNode(iface(node)) && env != nil
 //@   use wfPrefixExp(node)
@@ -282,6 +305,7 @@ package evaluator
 //@   modifies contents(env.store)
 
 //@ func (e *Evaluator) evalTernaryExp
+//@   return 0: assert error-passed-through-unchanged: result == condition
 //@   call Eval#0: assert condition-first: arg1 == node.Condition && arg2 == env
 //@   call Eval#1: assert then-only-if-truthy: truthy(condition) && arg1 == node.Consequence && arg2 == env
 //@   call Eval#2: assert else-only-if-falsy: !truthy(condition) && arg1 == node.Alternative && arg2 == env
@@ -303,12 +327,15 @@ package evaluator
 //@   modifies contents(env.store)
 
 //@ func (e *Evaluator) evalPostfixExp
+//@   return 0: assert error-passed-through-unchanged: result == leftObj
 //@   requires node != nil && WFNode(iface(node)) && env != nil
 //@   use wfPostfixExp(node)
 //@   ensures result != nil
 //@   modifies contents(env.store)
 
 //@ func (e *Evaluator) evalCallExp
+//@   return 0: assert error-passed-through-unchanged: result == receiverObj
+//@   return 2: assert error-passed-through-unchanged: result == args[0]
 //@   call newError#*: assert error-carries-the-construct: arg1 == iface(node)
 //@   call dyncall#1: assert custom-only-without-builtin: !has(typeFuncs, node.Function.Value)
 //@   call dyncall#3: assert int-receiver-faithful: arg0 == as(receiverObj, *object.Int).Value && !has(typeFuncs, node.Function.Value)
@@ -328,6 +355,8 @@ package evaluator
 //@   loop 0: invariant len(result) == rangeindex + 1 && rangeindex + 1 <= len(exps)
 
 //@ func (e *Evaluator) evalInfixExp
+//@   return 0: assert error-passed-through-unchanged: result == leftObj
+//@   return 1: assert error-passed-through-unchanged: result == rightObj
 //@   call Eval#0: assert left-first: arg1 == left && arg2 == env
 //@   call Eval#1: assert then-right: arg1 == right && arg2 == env && !isErr(leftObj)
 //@   call evalInfixOperatorExp#0: assert operand-roles: arg1 == operator && arg2 == leftObj && arg3 == rightObj && !isErr(leftObj) && !isErr(rightObj)
